@@ -28,7 +28,8 @@ def gen_history(seed, tier, *, n_ops=(2, 6), genkw=None,
                 allow=("run", "fail", "cut", "update", "delete", "fresh", "intr", "bump"),
                 final_run=True):
     rng = worldgen.child_rng(seed, "history")
-    kw = dict(SIZES[tier])
+    # (value stores on literals and gather results, too; one store object behind two source nodes)
+    kw = dict(SIZES[tier], p_store_other=0.12, p_dup_src=0.1)
     kw.update(genkw or {})
     world = worldgen.gen_world(rng, registry=True, p_unpack=0.0, scopes="plain", **kw)
     sc = worldgen.gen_sched(rng)
